@@ -1,4 +1,5 @@
 """C10 ds.List = container/list: pointer-level model (coq/C10_List) + three-way lockstep correspondence (DESIGN.md §7.10)."""
+import glob
 import json
 import os
 
@@ -14,6 +15,9 @@ def run(ctx):
     ctx.proof_side(DIRS, "Properties/C10.v", extra_trusted=[
         "hand-written pointer-level model of ds/list_impl.go (Model.v: next/prev/list/value maps, sentinel per list, len), tied to the code by the correspondence check only",
         "the RWMutex of the thread-safe flavour is modelled for one sequential caller (Model.locks: read/write holds per list, a lock that cannot be taken blocks for ever; every wrapper method = lock, deferred unlock on all exit paths, body)",
+        "ATOMICITY ASSUMPTION of C10_ts_equals_plain: under concurrent callers every wrapper method of the thread-safe flavour is ONE atomic step (mutators exclude everything, readers exclude mutators - "
+        "the sync.RWMutex contract plus 'every mutator takes the WRITE lock'), so that concurrent use is some sequential history. Not proved: tied to the code by the free-running concurrent family "
+        "(harness/cmd/c10/free.go: 2-4 goroutines on one list, schedule-independent oracles, plain and -race builds)",
         "scripted callbacks: at each visit nothing, an abort, or ONE call (cbact); callbacks that write the list they iterate are run on the lock-free flavour and container/list only - on the thread-safe flavour such a call blocks by design (C10_ts_reentrant_write_blocks: modelled, not exercised by the harness)",
         "correspondence cases beyond the first --full K carry two 30-bit fingerprints of the observation list instead of the list itself (Coq parses ~10^4 numerals/s)",
     ])
@@ -24,15 +28,69 @@ def run(ctx):
         ctx.seed -= 5000
     else:
         ctx.corr(hx, ["hist", "--n", "400", "--len", "30", "--full", "30"])
+    # free-running concurrent family of the thread-safe flavour (no Coq cases): plain build, then the same from a -race build (both tiers)
+    free_args = ["free", "--ms", "400" if thorough else "200", "--rounds", "4" if thorough else "1"]
+    ctx.corr(hx, free_args + ["--tag", "free"], cases_name="free.v")
+    try:
+        race_free(ctx, free_args)
+        ctx.assumptions.append("the free-running family also ran from a -race build without a data race report (a report is a VIOLATION); note that next/prev/list/value are atomic.Pointer fields, "
+                               "so the race detector can only see unsynchronised accesses to len and to caller data - ring corruption by interleaved pointer splices is judged by the family's own oracles")
+    except RuntimeError as ex:
+        ctx.log("race build unavailable: %s" % ex)
+        ctx.assumptions.append("race-detector build not available on this machine: the free-running family ran without it")
     ctx.assumptions += [
-        "sequential callers: one call at a time per world, plus the calls a callback makes from inside ForEach/ForEachReverse/Range/RangeReverse (the thread-safe flavour is exercised for equality with the lock-free one and for self-deadlock, not for races; concurrent a.PushBackList(b) || b.PushBackList(a) lock-order inversion is outside the statement)",
+        "the C10 theorems quantify over SEQUENTIAL histories: one call at a time per world, plus the calls a callback makes from inside ForEach/ForEachReverse/Range/RangeReverse. That they say anything about concurrent "
+        "use of the thread-safe flavour rests on the ATOMICITY ASSUMPTION: every wrapper method is one atomic step under its RWMutex (all twelve mutators under the write lock, all readers under the read lock). "
+        "This is assumed by C10_ts_equals_plain, not proved; it is tied to the code by the free-running concurrent family only: per round one ds.NewList[int]() used by 2-4 goroutines for a fixed time on >= 2 cores "
+        "(15 rounds, each with half of its calls on one focus method; pushes/inserts/moves/removes on own, shared and other goroutines' handles, whole-list pushes, all eight readers), judged by schedule-independent laws "
+        "(every snapshot and the quiescent state: forward walk = backward walk = ForEach = Values, Len, every element pushed and not removed exactly once, nothing foreign, each goroutine's lane elements in the order of its "
+        "private container/list), each round in a child process under recover + watchdog + heap monitor, plain and -race builds. A bad interleaving that needs more than ~10^5-10^6 calls to show up, lock-order inversion "
+        "between two lists (a.PushBackList(b) || b.PushBackList(a)) and Init() under concurrency are outside it",
         "the refinement theorem is for zombie-free histories (no call passes a handle orphaned by Init on a non-empty list: container/list itself leaves its contract there); such histories are covered by the correspondence check only, where ds is compared with container/list and with the pointer model",
         "element values are ints (T = int); the sentinel's nil Value of container/list is identified with the zero value",
     ]
 
 
+def race_free(ctx, args):
+    """Runs the free-running concurrent family from a -race build; a reported data race is a violation (replay = the run itself)."""
+    hxr = ctx.go_build("c10", race=True)
+    logp = os.path.join(ctx.build, "free_race_log")
+    for f in glob.glob(logp + ".*"):
+        os.remove(f)
+    old = os.environ.get("GORACE")
+    os.environ["GORACE"] = "exitcode=0 atexit_sleep_ms=100 log_path=" + logp
+    try:
+        ctx.corr(hxr, args + ["--tag", "free_race"], cases_name="free_race.v", timeout=600)
+    finally:
+        if old is None:
+            del os.environ["GORACE"]
+        else:
+            os.environ["GORACE"] = old
+    reports = ""
+    for f in sorted(glob.glob(logp + ".*")):
+        reports += open(f, errors="replace").read()
+    n = reports.count("WARNING: DATA RACE")
+    ctx.cov.setdefault("extra", {})["c10_free_race_reports"] = n
+    if n:
+        ctx.violation({"kind": "data-race-between-method-calls", "reports": n, "seed": ctx.seed,
+                       "case": {"c10_free_race": True, "args": args},
+                       "what": "the Go race detector saw unsynchronised accesses between concurrent method calls on one thread-safe ds.List: its wrapper "
+                               "methods are not atomic steps (the assumption under which the sequential C10 theorems apply to concurrent use)",
+                       "first_report": reports[:3500], "replay": "bin/check C10 --replay <this file>"}, tag="race")
+
+
 def replay(ctx, obj):
-    """Re-runs the stored history on the three implementations and the model."""
+    """Re-runs the stored history on the three implementations and the model (or, for the free-running family, the same round configurations)."""
+    case = obj.get("case") if isinstance(obj, dict) else None
+    if isinstance(case, dict) and case.get("c10_free_race"):
+        race_free(ctx, list(case.get("args") or ["free", "--ms", "200", "--rounds", "1"]))
+        return ctx.finish(LEVEL)
+    if isinstance(case, dict) and case.get("c10_free"):
+        # schedule-dependent: the same focus / goroutine count / call mix, five rounds
+        hx = ctx.go_build("c10")
+        ctx.seed = int(case.get("gen_seed", ctx.seed))
+        ctx.corr(hx, ["free", "--focus", str(case.get("focus", "uniform")), "--ms", str(case.get("ms", 200)), "--rounds", "5"], cases_name="replay_free.v")
+        return ctx.finish(LEVEL)
     hx = ctx.go_build("c10")
     path = os.path.join(ctx.build, "replay_in.json")
     with open(path, "w") as f:
